@@ -931,6 +931,12 @@ func (s *Sched) pick() {
 		// the goroutine exists (Spawn happened) but has not reached Start yet
 		for !t.arrived {
 			m := <-s.msgs
+			if (m.kind == mExit && len(s.byKey[m.key]) == 0) || (m.kind == mWGDone && !s.knownWG(m.key)) {
+				// last hook calls of a goroutine of an earlier, unsimulated run (see loop)
+				s.Foreign++
+				m.reply <- cmd{}
+				continue
+			}
 			if m.kind != mStart {
 				panic(fmt.Sprintf("sim: message %d from a task while nobody holds the baton", m.kind))
 			}
